@@ -157,7 +157,9 @@ def missMark : Bytes := "ORACLEMISS".toUTF8.data.toList
 
 def mkExt (s : DState) (ecr : List ((Bytes × Bytes) × Option Bytes)) : Ext where
   keccak256 := Native.keccak256
-  ecrecover := fun d sig => match ecr.lookup (d, sig) with | some r => r | none => some missMark
+  -- an entry on the op line (the harness's own call of the library on the inputs the specification names) if there is
+  -- one; otherwise the model's own secp256k1 (Native/Secp256k1.lean)
+  ecrecover := fun d sig => match ecr.lookup (d, sig) with | some r => r | none => Native.Secp.ecrecover d sig
   accAddr := Native.accAddrFromBech32 s.pfx
   bech32Enc := Native.bech32Encode s.pfx
   toLower := fun b => if Native.isAscii b then Native.lowerAscii b else (s.lowers.lookup b).getD missMark
@@ -325,7 +327,7 @@ def step (s : DState) (line : String) : DState × String :=
             | .replaceMessage _ msg att _ _ => ecrMissing ext ecr msg att
             | .replaceDepositForBurn _ msg att _ _ => ecrMissing ext ecr msg att
             | _ => false
-          if miss then (s, "oracle-miss") else
+          let _ := miss
           -- through the transaction machine of Model/Batch.lean (`Chain.step`): outside an open transaction this is
           -- `deliver`; inside one the message runs on the transaction's branch and a failure dooms the transaction
           let faults := parseFaults (kv.get "faults")
@@ -352,7 +354,6 @@ def step (s : DState) (line : String) : DState × String :=
       | [] => (s, "bad-op")
     | "verify" =>
       let msg := kv.bytes "message"; let att := kv.bytes "attestation"
-      if ecrMissing ext ecr msg att then (s, "oracle-miss") else
       (s, "out=" ++ showR (verify ext msg att (kv.bytesList "attesters") (kv.nat "threshold")))
     | "msg-parse" =>
       match Message.parse (kv.bytes "bz") with
@@ -395,6 +396,7 @@ def step (s : DState) (line : String) : DState × String :=
         | "fromHex" => hexStr (fromHex a)
         | "accAddr" => (match ext.accAddr a with | some b => hexStr b | none => "ERR")
         | "bech32" => (match ext.bech32Enc a with | some b => hexStr b | none => "ERR")
+        | "ecrecover" => (match Native.Secp.ecrecover a (kv.bytes "b") with | some b => hexStr b | none => "ERR")
         | "denom" => (if ext.validDenom a then "1" else "0")
         | "base58" => hexStr (ext.base58 a)
         | "lower" => hexStr (ext.toLower a)
